@@ -473,7 +473,13 @@ static bool rawReadMessage(int fd, Str& pending, Str& msg, int ms)
 	bool chunked = false;
 	size_t p = head.find("\r\ncontent-length:");
 	if (p != Str::npos) cl = atoll(head.c_str() + p + 17);
-	if (head.find("\r\ntransfer-encoding: chunked") != Str::npos) chunked = true;
+	p = head.find("\r\ntransfer-encoding:");
+	if (p != Str::npos) { // chunked when the last coding is "chunked"
+		size_t e = head.find("\r\n", p + 2);
+		Str v = head.substr(p + 20, e - (p + 20));
+		while (!v.empty() && (v[v.size() - 1] == ' ' || v[v.size() - 1] == '\t')) v.erase(v.size() - 1);
+		if (v.size() >= 7 && v.compare(v.size() - 7, 7, "chunked") == 0) chunked = true;
+	}
 	size_t need = he;
 	if (cl >= 0) need = he + (size_t)cl;
 	else if (chunked) {
